@@ -31,6 +31,7 @@ type c14Wrapper struct {
 	Fn       *ssa.Function
 	Acquire  *ssa.Call
 	LimField FieldRef
+	LimInner FieldRef // the innermost field when LimField is a nested selection (cfg.recv.limiter)
 	LimAP    string
 	Dir      string // "Recv" / "Send" / "" (unary)
 	ExcField FieldRef
@@ -97,12 +98,15 @@ func runC14(p *Prog, l *Ledger) {
 		}
 		w := &c14Wrapper{Fn: f, Acquire: acq[0]}
 		c := p.CallOf(acq[0])
-		fr, _, ok := loadedField(strip(c.Recv, false))
+		fr, _, ok := c14Loaded(strip(c.Recv, false))
 		if !ok || fr.Type.Obj().Pkg() != p.TPkgs["grpc"] {
 			l.Bad("O1", key, p.At(acq[0]), "Acquire is not called on a limiter read from an interceptor config field: "+valueString(c.Recv))
 			continue
 		}
 		w.LimField = fr
+		if inner, _, ok := loadedField(strip(c.Recv, false)); ok && !sameField(inner, fr) {
+			w.LimInner = inner
+		}
 		w.LimAP = AccessPath(c.Recv).String()
 		switch {
 		case strings.HasPrefix(f.Name(), "Recv"):
@@ -155,7 +159,7 @@ func runC14(p *Prog, l *Ledger) {
 				}
 			}
 			if isParam {
-				options = append(options, option{f.Parent(), a.Field})
+				options = append(options, option{f.Parent(), c14Nested(a.Field, a.Base)})
 			}
 		}
 	}
@@ -174,6 +178,9 @@ func runC14(p *Prog, l *Ledger) {
 	for _, w := range wrappers {
 		c14Wrapper_check(p, l, w, consts, rt)
 		usedLim[p.FieldKey(w.LimField)] = append(usedLim[p.FieldKey(w.LimField)], p.Key(w.Fn))
+		if w.LimInner.Valid() {
+			usedLim[p.FieldKey(w.LimInner)] = append(usedLim[p.FieldKey(w.LimInner)], p.Key(w.Fn))
+		}
 	}
 
 	// O2 sibling / direction rules
@@ -300,7 +307,7 @@ func runC14(p *Prog, l *Ledger) {
 					return
 				}
 				for _, a := range p.Accesses(c.Static) {
-					if a.Write && cfgT != nil && a.Field.Type != nil && types.Identical(a.Field.Type, cfgT) {
+					if a.Write && cfgT != nil && a.Field.Type != nil && (types.Identical(a.Field.Type, cfgT) || c14NestedIn(a.Field.Type, cfgT)) {
 						inits = append(inits, ins)
 						return
 					}
@@ -395,9 +402,21 @@ func c14Wrapper_check(p *Prog, l *Ledger, w *c14Wrapper, consts map[int64]string
 			return false
 		}
 		if c.Iface != nil && c.Iface.Name() == f.Name() {
-			if fr, _, ok := loadedField(strip(c.Recv, false)); ok && f.Signature.Recv() != nil {
+			if fr, _, ok := c14Loaded(strip(c.Recv, false)); ok && f.Signature.Recv() != nil {
 				if d := derefNamed(f.Signature.Recv().Type()); d != nil && types.Identical(fr.Type, d) {
 					return true
+				}
+			}
+		}
+		// the same-named interface method called through a method expression (ServerStream.RecvMsg)(s.ServerStream, m)
+		if c.Static != nil && c.Static.Synthetic != "" && strings.TrimSuffix(c.Static.Name(), "$thunk") == f.Name() && f.Signature.Recv() != nil {
+			if obj, ok := c.Static.Object().(*types.Func); ok && obj != nil {
+				if sig, ok := obj.Type().(*types.Signature); ok && sig.Recv() != nil && types.IsInterface(sig.Recv().Type()) && len(call.Call.Args) > 0 {
+					if fr, _, ok := c14Loaded(strip(call.Call.Args[0], false)); ok {
+						if d := derefNamed(f.Signature.Recv().Type()); d != nil && types.Identical(fr.Type, d) {
+							return true
+						}
+					}
 				}
 			}
 		}
@@ -468,12 +487,10 @@ func c14Wrapper_check(p *Prog, l *Ledger, w *c14Wrapper, consts map[int64]string
 			if call, ok := ins.(*ssa.Call); ok {
 				c := p.CallOf(call)
 				if c.Name == "dynamic" {
-					if fr, _, ok := loadedField(strip(c.FnVal, false)); ok {
-						if nt, ok := fr.Type.Underlying().(*types.Struct); ok {
-							ft := nt.Field(fr.Index).Type()
-							if named, ok := ft.(*types.Named); ok && strings.Contains(named.Obj().Name(), "LimitExceeded") {
-								excCall = call
-							}
+					if _, _, ok := c14Loaded(strip(c.FnVal, false)); ok {
+						ft := strip(c.FnVal, false).Type()
+						if named, ok := ft.(*types.Named); ok && strings.Contains(named.Obj().Name(), "LimitExceeded") {
+							excCall = call
 						}
 					}
 				}
@@ -511,7 +528,7 @@ func c14Wrapper_check(p *Prog, l *Ledger, w *c14Wrapper, consts map[int64]string
 				badO3 = append(badO3, fmt.Sprintf("%s: status code is not the classifier's code result: %s", p.At(se), valueString(code)))
 			}
 			ec := p.CallOf(excCall)
-			fr, _, _ := loadedField(strip(ec.FnVal, false))
+			fr, _, _ := c14Loaded(strip(ec.FnVal, false))
 			if w.ExcField.Valid() && !sameField(w.ExcField, fr) {
 				badO3 = append(badO3, "different limit-exceeded classifier fields on different paths")
 			}
@@ -602,7 +619,7 @@ func c14Wrapper_check(p *Prog, l *Ledger, w *c14Wrapper, consts map[int64]string
 			// the classified value comes from a configured classifier field, called after the wrapped call
 			if call, ok := strip(respVal, false).(*ssa.Call); ok {
 				cc := p.CallOf(call)
-				if fr, _, ok := loadedField(strip(cc.FnVal, false)); ok && cc.Name == "dynamic" {
+				if fr, _, ok := c14Loaded(strip(cc.FnVal, false)); ok && cc.Name == "dynamic" {
 					dup := false
 					for _, x := range w.RespFields {
 						if sameField(x, fr) {
@@ -735,4 +752,48 @@ func c14Excluded(pa *Path, rt *types.Named) map[int64]bool {
 		out[v] = true
 	}
 	return out
+}
+
+// c14Nested: a field of a settings struct that is itself a (by-value) field of the config struct - cfg.recv.limiter - is
+// named by both selections, so that the two directions' copies of the same inner field are different fields.
+func c14Nested(fr FieldRef, base ssa.Value) FieldRef {
+	fa, ok := strip(base, false).(*ssa.FieldAddr)
+	if !ok || fr.Type == nil {
+		return fr
+	}
+	outer, _, ok := fieldOf(fa)
+	if !ok || outer.Type == nil {
+		return fr
+	}
+	st := structOf(outer.Type)
+	if st == nil || outer.Index >= st.NumFields() {
+		return fr
+	}
+	if nt, _ := st.Field(outer.Index).Type().(*types.Named); nt == nil || !types.Identical(nt, fr.Type) {
+		return fr // reached through a pointer, not nested by value
+	}
+	return FieldRef{Type: outer.Type, Index: 100000 + outer.Index*1000 + fr.Index, Name: outer.Name + "." + fr.Name}
+}
+
+// c14Loaded is loadedField with nested settings structs resolved (c14Nested).
+func c14Loaded(v ssa.Value) (FieldRef, ssa.Value, bool) {
+	fr, base, ok := loadedField(v)
+	if !ok {
+		return fr, base, ok
+	}
+	return c14Nested(fr, base), base, true
+}
+
+// c14NestedIn: inner is the type of a by-value struct field of outer (settings grouped into a sub-struct).
+func c14NestedIn(inner, outer *types.Named) bool {
+	st, ok := outer.Underlying().(*types.Struct)
+	if !ok {
+		return false
+	}
+	for i := 0; i < st.NumFields(); i++ {
+		if nt, ok := st.Field(i).Type().(*types.Named); ok && types.Identical(nt, inner) {
+			return true
+		}
+	}
+	return false
 }
